@@ -56,7 +56,7 @@ SEEDS = [
  ('C04-2', '/tmp/wt_C04/_out/2', 'C04', 'an authorizer-level scope (AuthorizerBuilder::scope) and a policy without its own `trusting` annotation',
   {'C04': 'VIOLATION token::authorizer::Authorizer::authorize_inner (precondition of lemma_tset at the policy query: the trusted set handed to the engine is not the specification one)', 'history': 'first run NOT detected (authorize_inner was an assumed callee); caught after unit authz put the decision composition under contract'}),
  ('C19-1', '/tmp/wt_C19/_out/1', 'C19', 'a token whose last next-key is secp256r1 (seal signature is DER, not 64 bytes): biscuit_sealed_size computed by arithmetic disagrees with what biscuit_serialize_sealed writes',
-  {'C19': 'UNDECIDED (exit 2): the changed biscuit_sealed_size calls Biscuit::container() / Token::AlreadySealed, which the capi unit has no contract for; the front end rejects the unit and the check refuses to guess'}),
+  {'C19': 'VIOLATION biscuit-capi::lib::biscuit_sealed_size::ensures.size (and arith[sz - SECRET_KEY_LENGTH])', 'history': 'first UNDECIDED (the changed function calls Biscuit::container() / Token::AlreadySealed, for which the capi unit had no stub); two independent sub-agents produced this same change (see C19-4), so the read-only container accessor was added to the assumed Rust API of the unit'}),
  ('C19-2', '/tmp/wt_C19/_out/2', 'C19', 'biscuit_block_context called with block_index == block_count (off-by-one guard) so swap_remove panics across the FFI boundary',
   {'C19': 'VIOLATION biscuit-capi::lib::biscuit_block_context::call-pre(vstd:vec.rs)[biscuit.0.context().swap_remove(block_index)]', 'history': 'function was not in unit capi at first (NOT detected); caught after biscuit_block_context was put under contract'}),
  # ---- round 2 (after units engine / loadb / closures were added) ----
@@ -76,6 +76,31 @@ SEEDS = [
   {'C04': 'VIOLATION token::authorizer::Authorizer::authorize_inner (precondition of lemma_tset for the block-level trusted set: it is not the specification set of blocks[i + 1].scopes)'}),
  ('C04-4', '/scratch/t/r2/C04-2', 'C04', 'a rule deriving a fact that already exists under another origin and a check / policy / query that trusts only the derived origin (derived facts skipped when present under any origin)',
   {'C04': 'UNDECIDED (exit 2): same place as C03-4 (fixpoint loop of run_with_limits, unit engine); the change reads FactSet::inner through an iterator chain the unit cannot type', 'history': 'NOT detected (exit 0) before the fixpoint loop was un-abstracted'}),
+ # ---- round 3 (against HEAD cb1e0aa) ----
+ ('C19-3', '/scratch/t/r3/C19-1', 'C19', 'a block_builder_add_check call that fails to parse, followed by any other call on the same handle (take() instead of clone(): the handle is left empty)',
+  {'C19': 'VIOLATION biscuit-capi::lib::BlockBuilder::add_check::ensures.handle (the handle invariant added with fix 4333c7b)'}),
+ ('C19-4', '/scratch/t/r3/C19-2', 'C19', 'biscuit_sealed_size computed as serialized_size() + 32 while the last block was appended with a secp256r1 key pair',
+  {'C19': 'VIOLATION biscuit-capi::lib::biscuit_sealed_size::ensures.size and ::arith[sz + 32]', 'history': 'first UNDECIDED (Biscuit::container() not stubbed); same idea as C19-1 from another sub-agent'}),
+ ('C16-3', '/scratch/t/r3/C16-1', 'C16', 'a block declaring version 3 with 3.3-only content and no 3.1 feature (the 3.3 arm of the `version < 3.1` case dropped in a flattened cascade)',
+  {'C16': 'VIOLATION datalog::SchemaVersion::check_compatibility::ensures.minimal, witness from verif-replay underdeclared_block_accepted'}),
+ ('C16-4', '/scratch/t/r3/C16-2', 'C16', 'authority on scheme 0, then a block needing scheme 1, then a plain block added with append (max() -> last() over the previous versions, authority comes last on that path)',
+  {'C16': 'VIOLATION format::block_signature_version::ensures.otherwise'}),
+ ('C08-3', '/scratch/t/r3/C08-1', 'C08', 'third_party_request on a sealed token through UnverifiedBiscuit (sealed check moved from ThirdPartyRequest::from_container to Biscuit::third_party_request only)',
+  {'C08': 'VIOLATION token::third_party::ThirdPartyRequest::from_container::ensures.sealed'}),
+ ('C08-4', '/scratch/t/r3/C08-2', 'C08', 'a sealed token cut down to its authority block: the seal signature is not verified when there is no block after the authority',
+  {'C08': 'VIOLATION format::SerializedBiscuit::verify_inner::ensures.chain', 'C01': 'VIOLATION format::SerializedBiscuit::verify_inner::ensures.chain'}),
+ ('C02-3', '/scratch/t/r3/C02-1', 'C02', 'sealing a token whose LAST block is a third-party block (seal payload built from the block payload helper, so the external signature lands in it)',
+  {'C02': 'VIOLATION crypto::generate_seal_signature_payload_v0::ensures.layout', 'C08': 'VIOLATION crypto::generate_seal_signature_payload_v0::ensures.layout'}),
+ ('C02-4', '/scratch/t/r3/C02-2', 'C02', 'an unsealed token with two or more appended blocks whose first and last next keys use different algorithms (proof secret parsed with the first block algorithm)',
+  {'C02': 'UNDECIDED (exit 2): the change removes the local next_key_algorithm that the loop invariant of SerializedBiscuit::deserialize names (same shape as C02-2 of round 1)', 'C01': 'UNDECIDED (same unit)'}),
+ ('C12-3', '/scratch/t/r3/C12-1', 'C12', 'an UnverifiedBiscuit append of a first-party block that introduces a new public key but no new string (table merge skipped when the block declares no symbol)',
+  {'C12': 'VIOLATION token::unverified::UnverifiedBiscuit::append_with_keypair (the proof of the table invariant)', 'history': 'first UNDECIDED (SymbolTable::current_offset was not in the unit); the one-line accessor was put under contract'}),
+ ('C12-4', '/scratch/t/r3/C12-2', 'C12', 'a signed token whose appended first-party block redeclares a known string (reload interns the strings instead of refusing the overlap)',
+  {'C12': 'VIOLATION format::SerializedBiscuit::extract_blocks::loop2.syms (and @entry)'}),
+ ('C17-3', '/scratch/t/r3/C17-1', 'C17', 'a protobuf public key whose algorithm tag is outside {0, 1} with 32 valid ed25519 bytes (prost getter falls back to the default variant)',
+  {'C17': 'VIOLATION crypto::PublicKey::from_proto::ensures.rel', 'history': 'first UNDECIDED (the conversion schema Algorithm -> builder Algorithm had no contract in unit chain); same defect class as C17-1 of round 1'}),
+ ('C17-4', '/scratch/t/r3/C17-2', 'C17', 'a small-order ed25519 public key with a crafted signature (verify_strict -> verify)',
+  {'C17': 'VIOLATION crypto::ed25519::PublicKey::verify_signature::ensures.strict', 'C01': 'same obligation', 'C15': 'same obligation'}),
 ]
 only = sys.argv[1:] 
 for sid, src, prop, needs, det in SEEDS:
